@@ -1050,6 +1050,9 @@ var (
 
 func init() {
 	tsm1.VerifSetPointFn(func(name, path string) {
+		if os.Getenv("VERIF_DEBUG") != "" {
+			fmt.Fprintf(os.Stderr, "verif point %s %s (gates %d)\n", name, path, len(gates))
+		}
 		gateMu.Lock()
 		var g *Gate
 		for k, v := range gates {
@@ -1175,12 +1178,21 @@ func (h *H) Step(op string) (out string) {
 	}()
 	f := strings.Fields(op)
 	i64 := func(s string) int64 { v, _ := strconv.ParseInt(s, 10, 64); return v }
-	if h.held != nil && f[0] != "w" && f[0] != "wr" && f[0] != "read" && f[0] != "snaprelease" {
+	if h.held != nil && f[0] != "w" && f[0] != "wr" && f[0] != "wbig" && f[0] != "lswal" && f[0] != "read" && f[0] != "snaprelease" {
 		h.SnapRelease() // only writes and reads run against a held snapshot
 	}
 	switch f[0] {
 	case "w":
 		return h.Write(f[1])
+	case "lswal": // debugging aid: the WAL segments and their sizes
+		var out []string
+		filepath.Walk(h.Dir, func(p string, fi os.FileInfo, err error) error {
+			if err == nil && !fi.IsDir() {
+				out = append(out, fmt.Sprintf("%s:%d", filepath.Base(p), fi.Size()))
+			}
+			return nil
+		})
+		return strings.Join(out, ",")
 	case "wbig":
 		// 12 MB of incompressible filler under a measurement nothing reads: the WAL segment
 		// grows past its roll-over size (a constant 10 MiB), so the next write starts a new
